@@ -229,6 +229,8 @@ def run(tier, seed, replay):
     long_ = "x" * 90
     for k, sep in enumerate(["\x0c", "\x0b", "\x1c", "\x1d", "\x1e", "\x85", "\u2028", "\u2029", "\r"]):
         files.append((f"ctl{k}.c", f"/* section 1 {sep} section 2 {sep} {long_} */\nint\tg_a = 1;{sep}\n// c {sep} {long_}\n"))
+        files.append((f"one{k}.c", f"/* section 1 {sep} section 2 {sep} {long_} */\n"))        # a one-line file
+        files.append((f"last{k}.c", f"int\tg_a = 1;\n/*\n** {sep}{sep}\n** {long_} {sep}\n*/"))   # over-long line is the last one
         files.append((f"ctl{k}.h", f"/*\n** a{sep}b\n** {long_}{sep}{long_}\n*/\n\"s{sep}t\"\n"))
     files.append(("nonl.c", "int\tmain(void)\n{\n\treturn (0);\n}"))
     files.append(("empty.c", ""))
